@@ -54,6 +54,13 @@ Theorem C07_row_key_separator_refuted :
 Proof. exact row_key_separator_refuted. Qed.
 Print Assumptions C07_row_key_separator_refuted.
 
+(* the same rows collide when a string schema is passed (GROUP BY): the NUL rune's weight bytes are zero too *)
+Theorem C07_row_key_separator_with_schema_refuted :
+  forall (w : N -> N), w 0%N = 0%N ->
+    row_key w [CStr; CStr] [HStr [97;0]%N; HStr [98]%N] = row_key w [CStr; CStr] [HStr [97]%N; HStr [0;98]%N].
+Proof. exact row_key_separator_schema_refuted. Qed.
+Print Assumptions C07_row_key_separator_with_schema_refuted.
+
 (* EXCEPT: the empty row hashed at the end of the right input has the key of the one-column row ('') *)
 Theorem C07_except_end_of_input_key_refuted :
   forall (w : N -> N), [] <> [HStr []] /\ row_key w [] [] = row_key w [] [HStr []].
